@@ -186,14 +186,20 @@ func (s *Stream) next(ctx context.Context, block bool) bool {
 		index := -1
 		if s.last != nil {
 			i, ok := oplog.Index[s.last]
-			if !ok {
+			if ok {
+				index = i
+			} else if bsonkit.Compare(discarded, bsonkit.Get(s.last, "_id.ts")) > 0 {
+				// an event newer than the last examined one has been discarded
 				s.cancel()
 				s.closed = true
 				s.error = ErrLostOplogPosition
 				s.mutex.Unlock()
 				return false
 			}
-			index = i
+
+			// otherwise only the last examined event itself (and older ones)
+			// have been discarded: nothing is lost and the stream continues
+			// with the oldest remaining event
 		}
 
 		// get next event
